@@ -98,13 +98,24 @@ func genLogsPkt(r *Rng, e srvEnc, n int) srvPkt {
 	return p
 }
 
+// a result schema that genScript uses instead of a generated one (directed cases)
+var c03ForcedSchema []*TNode
+
 func genScript(r *Rng, e srvEnc, withEOS bool) *respScript {
 	s := &respScript{}
 	ncols := 1 + r.Intn(3)
+	if c03ForcedSchema != nil {
+		ncols = len(c03ForcedSchema)
+	}
 	for i := 0; i < ncols; i++ {
-		t := genType(r)
-		for unorderedMaps(t, false) {
+		var t *TNode
+		if c03ForcedSchema != nil {
+			t = c03ForcedSchema[i]
+		} else {
 			t = genType(r)
+			for unorderedMaps(t, false) {
+				t = genType(r)
+			}
 		}
 		s.schema = append(s.schema, t)
 		s.names = append(s.names, fmt.Sprintf("c%d", i))
@@ -149,6 +160,10 @@ func genScript(r *Rng, e srvEnc, withEOS bool) *respScript {
 		case 8:
 			s.pkts = append(s.pkts, mkData("t", 1))
 		}
+	}
+	if c03ForcedSchema != nil {
+		// a directed schema is there to be decoded: two blocks with rows in any case
+		s.pkts = append(s.pkts, mkData("d", 6), mkData("d", 3))
 	}
 	// tail
 	switch r.Intn(10) {
@@ -584,8 +599,66 @@ func typeNames(ts []*TNode) []string {
 var c03Compressions = []ch.Compression{ch.CompressionDisabled, ch.CompressionLZ4, ch.CompressionZSTD, ch.CompressionNone, ch.CompressionLZ4HC}
 var c03Revs = []int{54460, 54459, 54453, 54451, 54450, 54441, 54429, 54420, 54406, 54405}
 
+// a well-formed stream whose packets arrive slowly: the server (or the network) pauses for longer than the read timeout right
+// after a packet's code byte or half way through its body.  The stream is still well-formed: everything is delivered once, in
+// order, and the call ends as without the pauses.
+func c03SlowPackets(c *Ctx, r *Rng) {
+	R := c.R
+	n := 3
+	if c.Thorough {
+		n = 25
+	}
+	for i := 0; i < n; i++ {
+		o := simOpts{compression: c03Compressions[r.Intn(len(c03Compressions))], serverRev: 54460, readTimeout: 25 * time.Millisecond}
+		probe, err := connectSim(o)
+		if err != nil {
+			continue
+		}
+		enc := probe.enc
+		probe.client.Close()
+		s := genScript(r, enc, true)
+		if len(s.pkts) > 5 {
+			s.pkts = append(s.pkts[:2], s.pkts[len(s.pkts)-3:]...)
+		}
+		h := c03Handlers{failAt: -1}
+		for j := range h.flags {
+			h.flags[j] = true
+		}
+		ref, err := runSegmented(o, s, h, nil, 0)
+		if err != nil {
+			continue
+		}
+		stream := s.stream()
+		pos := 0
+		tried := 0
+		for _, p := range s.pkts {
+			if len(p.bytes) > 1 && tried < 4 {
+				for _, k := range []int{pos + 1, pos + len(p.bytes)/2} {
+					if k <= 0 || k >= len(stream) {
+						continue
+					}
+					got, err := runDelayedSplit(o, s, h, k, 70*time.Millisecond)
+					if err != nil {
+						continue
+					}
+					tried++
+					R.Case(fmt.Sprintf("slow-packet|%s|%d|%d", s.specStr(), i, k), true)
+					R.Count("shape:pause-inside-packet")
+					if got != ref {
+						R.Violate(Violation{Kind: "oracle", Key: "delivery-trace", What: fmt.Sprintf("a pause longer than the read timeout inside a packet (after byte %d of a well-formed stream) changed what was delivered: got %s, without the pause %s", k, got, ref),
+							Case: map[string]any{"script": s.specStr(), "compression": int(o.compression), "read_timeout_ms": 25, "pause_after_byte": k, "pause_ms": 70, "got": got.String(), "reference": ref.String()}})
+						return
+					}
+				}
+			}
+			pos += len(p.bytes)
+		}
+	}
+}
+
 func runC03(c *Ctx) {
 	R := c.R
+	defer c03SlowPackets(c, c.Rng.Fork())
 	R.Rule = "response scripts (header blocks, data/totals blocks of random schemas incl. zero-row ones, Progress, Profile, ProfileEvents with UInt64/Int64 values, Log, TableColumns, exception chains of depth 1..5, EndOfStream / unexpected packet / cut) encoded by the harness' own encoders x compression {disabled, LZ4, ZSTD, None, LZ4HC} x negotiated revisions x presence/absence of each callback x a failing callback; executed by the real Client.Do against a scripted in-memory connection; callback trace, result-column snapshots at callback time, result and exception chain compared with the script and with the Lean specification. non-trivial = more than one packet; distinct by (script, handlers, revision, compression, schema)."
 	r := c.Rng
 	n := 250
